@@ -21,4 +21,31 @@ ENTRIES = {
             "an(Exactly(count-1|count|count+1)) must follow the true count.",
             "Row order not compared; bounds in evidence.bounds; CPython 3.12.",
             "DESIGN.md section 3 C02"),
+    "C15": ("model_checking",
+            "explicit enumeration of all ordered assertion sequences on the real descriptors, compared after every step with a reference fix-point closure",
+            "All ordered sequences of <=4 (thorough 5) distinct sub-organisation assertions over 4 companies (every chain, "
+            "diamond and cycle in every insertion order) and <=3 (thorough 4) assertions over the mixed universe "
+            "(single-valued assignment, container assignment, append/add on works_for/member_of/members/head_of incl. a "
+            "role) are executed on the real property descriptors from a fresh SymbolGraph; after every assertion the "
+            "graph relations and every managed field must equal the least fix point of the declared semantics.",
+            "Population 4 companies / 2 persons / 1 CEO; list fields compared as sets; histories with a single-valued "
+            "conflict are outside the statement and excluded by the generator (counted in evidence features).",
+            "DESIGN.md section 3 C15"),
+    "C18": ("exploration",
+            "bounded exhaustive enumeration of nested values through real json.dumps/loads, type-exact comparison",
+            "Every value of nesting <=3 / list width <=2 over a 33-leaf alphabet (extreme numbers, nan/inf/-0.0, unicode and "
+            "surrogate strings, UUIDs, a registry type, serializer classes of subclass depth 1-3, two classes sharing a "
+            "simple name in different modules), every object class wrapping every smaller value, is round-tripped through "
+            "real JSON text and compared type-exactly; every serialised object dict is checked for its fully qualified tag.",
+            "Tuples/sets outside the statement; classes at module top level; CPython json module.",
+            "DESIGN.md section 3 C18"),
+    "C19": ("fault_enumeration",
+            "exhaustive enumeration of a type-tag fault grammar against from_json, outcome classified by exception class",
+            "Every JSON type under the tag key and ~4000 strings of the grammar dots.module.sep.attr.dots (importable, "
+            "missing, missing parent, import-failing modules; functions, modules, TypeVars, instances, plain classes, the "
+            "abstract serializer base, deserialisable controls), top level and nested in a list, must raise a "
+            "JSONSerializationError subclass (the documented subclass for the four documented cases) and never return an "
+            "object; the control group must return exactly the tagged class.",
+            "Only JSON-representable tags; module alphabet fixed (stdlib + harness modules).",
+            "DESIGN.md section 3 C19"),
 }
